@@ -81,6 +81,19 @@ theorem viterbi_scalar_beta (K : Nat) (rows : List (Nat → α)) (b : α) :
       = viterbi K (withVectorBeta rows (List.replicate rows.length b)) := by
   rw [withScalarBeta_eq]
 
+omit [IsOrderedAddMonoid α] in
+/-- the executable refinement returns exactly what the specification-level model returns.
+(Holds for the bare operations `[Add α] [Sub α] [LT α] [DecidableLT α] [Zero α]`:
+`viterbiFast_eq_viterbi` in `Proofs/Viterbi.lean`.  `0 < K` is necessary.) -/
+theorem viterbiFast_eq (K : Nat) (hK : 0 < K) (pts : List ((Nat → α) × α)) :
+    viterbiFast K pts = viterbi K pts :=
+  viterbiFast_eq_viterbi K hK pts
+
+/-- `0 < K` is needed in `viterbiFast_eq`: for `K = 0` the stored rows are empty. -/
+theorem viterbiFast_eq_needs_pos_K :
+    ∃ pts : List ((Nat → Int) × Int), viterbiFast 0 pts ≠ viterbi 0 pts :=
+  ⟨[(fun _ => 0, 0), (fun _ => 1, 0)], by decide⟩
+
 /-- `beta ≥ 0` is needed: with a negative switching cost the kernel is not optimal —
 some valid labelling is strictly cheaper than the returned one
 (`K = 2`, two all-zero points, `beta = -5`: returned `[0, 0]` costs `0`, `[0, 1]` costs `-5`).
